@@ -539,16 +539,22 @@ def parse_modifies(ex, st, env, entries):
                 st.heap = s.heap
             finally:
                 ex.spec_mode -= 1
-            if kindsel is not None:
-                tr = ex.as_ref(tgt, st, None)
-                preds.append(owner_of(o) == tr.t)
-            else:
-                if tgt.k == "seq":
-                    # a list of objects: every element
-                    preds.append(Contains(tgt.t, Val.ref(o)))
-                else:
+            ex.spec_mode += 1       # a None target simply denotes no object: no definedness obligation
+            try:
+                if kindsel is not None:
                     tr = ex.as_ref(tgt, st, None)
-                    preds.append(o == tr.t)
+                    preds.append(owner_of(o) == tr.t)
+                else:
+                    if tgt.k == "seq":
+                        # a list of objects: every element
+                        preds.append(Contains(tgt.t, Val.ref(o)))
+                    elif tgt.k == "val":
+                        preds.append(z3.And(Val.is_ref(tgt.t), o == Val.o(tgt.t)))
+                    else:
+                        tr = ex.as_ref(tgt, st, None)
+                        preds.append(o == tr.t)
+            finally:
+                ex.spec_mode -= 1
         for hn in heapnames:
             if not preds:
                 mods[hn] = None
